@@ -16,7 +16,8 @@ EXPLANATION = (
     "watcher whose data is the task and whose callback holds the only decrement. R12.3: every element of a function-local static that a "
     "function writes on some path is written on all paths before the object is used (no state leaking between spawns). R12.4: the no-run "
     "flag text is an option of the executor and its test bypasses prep_task/run_task; the MAX-SIMUL encoding round-trips over the whole field. R12.5: the child watcher whose callback frees the slot is registered for "
-    "termination only (trace = 0), so a stopped job keeps its slot.")
+    "termination only (trace = 0), so a stopped job keeps its slot. R12.6: an error number returned by posix_spawn() in the daemon "
+    "reaches failure handling, so a failed spawn is never counted or watched as a running execution.")
 NOT_DECIDED = "overlapping process lifetimes under all interleavings of timer expiry and child exit; the behaviour itself"
 TRUSTED = ["clang 14 parser/CFG builder", "echse-facts extractor", "python rule engines in /verif/sa"]
 LEVEL_TEXT = ("Static verdict on necessary structural clauses of C12: every real run is counted (guard implication over linear forms), "
@@ -378,6 +379,9 @@ def run(prog, rep, tier, snap):
     from ..rules import watch
     rep.rule("R12.5", "child watchers whose callback means 'terminated' are registered for termination only", 1)
     watch.child_watchers(prog, rep, "R12.5", "echsd.c")
+    from ..rules import spawn
+    rep.rule("R12.6", "a failed posix_spawn (positive error number) is not taken for a started process", 1)
+    spawn.spawn_results(prog, rep, "R12.6", "echsd.c", 1)
     from ..rules import encodings
     rep.rule("R05.4", "MAX-SIMUL sentinel encoding round-trips over the whole field domain (shared with C05)", 1)
     encodings.r05_4(prog, rep, which=("max_simul",))
